@@ -59,4 +59,72 @@ CHECKS = {
         'call sequences is stated as a Definition, proved only for the first sign() call on an unsigned input; tamper_changes_digest is covered by the '
         'measured validity matrix, not by a theorem. Two known completeness findings (dup_point_keys, resign_keeps_stale).',
    technique='Coq proof (induction over key/signature lists, arbitrary signature relation) + scenario differential correspondence'),
+ 'C07': dict(
+   text='Pure Gallina model of Wallet.select_inputs, transaction_create (fee given/named/automatic, dust folding, change splitting with the random draws as '
+        'inputs, the final checks), send, sweep, bumpfee; every binary64 expression modelled exactly on rationals with round-to-nearest-even. Theorems for '
+        'all wallet views, requests, oracle values and every network of the regenerated table: select_sufficient, create_conserves, create_fee_nonneg, '
+        'create_no_negative_output, create_recipients_exact, create_inputs_ok, insufficient_fails, send/sweep_conserves, bumpfee_conserves, '
+        'bumpfee_no_negative_output, bumpfee_pays_extra. Tie: real wallets (sqlite, offline provider) are driven with random UTXO sets and requests and '
+        'compared with the extracted model; an independent oracle re-sums inputs/outputs/fee from the returned transaction and its raw bytes.',
+   design_ref='DESIGN.md section 6 C07, section 9',
+   note='Closed under the global context. SQL tie order, signing, address encoding and int64 wrap are not modelled (correspondence only). Two known findings '
+        '(explicit_inputs_unchecked, fee_rate_checked_on_estimate) with refutation witnesses; three defects repaired by fix: commits.',
+   technique='Coq proof over a pure functional model of transaction creation + differential correspondence against real wallets'),
+ 'C06': dict(
+   text='Byte-level Gallina model of the transaction and block codecs: spec_ser/spec_parse from BIP144 + Core, lib_raw/lib_parse mirroring the library. '
+        'Theorems unbounded in counts, sizes and witness items: spec_tx_codec (parse (ser t ++ rest) = (t, rest)), prefix-freeness, lib_roundtrip, '
+        'lib_txid_exact, lib_raw_is_spec, api_bytes_read_back, spec_block_codec, header_codec, target_exact. Tie: generated well-formed transactions and '
+        'blocks across CompactSize boundaries through Transaction.parse(raw).raw(), txid, API-built transactions read by the extracted spec parser, '
+        'Block.parse_bytes/serialize and parse_transactions_dict; independent Python codec as property-level oracle.',
+   design_ref='DESIGN.md section 6 C06, section 9',
+   note='Partial: the script layer (Script.parse, Input.update_scripts re-building unlocking scripts) is treated as the identity on bytes and checked by '
+        'correspondence only; readers_agree for the two block readers is not a theorem. lib_roundtrip is proved under the guard quirk_free; each excluded '
+        'class has a refutation witness and is a known finding (8 classes). Closed under the global context.',
+   technique='Coq proof (parser/serializer round trip by induction) + differential correspondence'),
+ 'C16': dict(
+   text='Taint model regenerated from the source: translator/gen_fields.py extracts from the AST of keys.py/wallets.py/db.py the attribute sets, the '
+        'assignments each public() performs, as_dict/repr tables and encrypted columns; the model runs public() as a program over those tables. Theorems for '
+        'ALL method histories before and after taking the public view: public_view_clean, public_view_no_secret, classification_sound, '
+        'default_exports_clean, walletkey_* variants, private_columns_encrypted; Glue lemmas make a removed stripping line or a new caching attribute '
+        'break the proof. Tie: random method histories on real keys and wallet keys with a byte-level scan (pickle, deepcopy, __dict__ walk, '
+        'as_dict/as_json/repr/info, raw sqlite file with field encryption) for every encoding of the secret.',
+   design_ref='DESIGN.md section 6 C16, section 9',
+   note='Partial: Python object graph, pickle, sqlite file layout are runtime, covered by the scan (testing). One-way steps (EC multiplication, BIP38 '
+        'encryption) are declassification points of the model. One known finding (dbkey_repr_private_wif). Closed under the global context.',
+   technique='Coq proof (invariant over operation histories) over a model regenerated from the source AST + taint scan correspondence'),
+ 'C03': dict(
+   text='BIP32 in Gallina on the executable HMAC-SHA512 and secp256k1: spec_ckd_priv/pub/derive from the BIP text, lib_* mirroring child_private, '
+        'child_public, subkey_for_path, path parsing. Theorems: ckd_commute and path_split (private and public derivation commute, every split point) in an '
+        'abstract group Section with the group laws as visible premises; concrete theorems without premises: lib_child_private_is_ckd, lib_is_spec, '
+        'hardened_from_public_fails, path_markers, ckd_metadata, master_range, wif_is_serialization; guards/thresholds/markers are re-read from the source '
+        'AST each run (source_is_model). Tie: seeds 16..64 bytes, paths to depth 10 with boundary indices and every marker spelling, every '
+        'private/public split, against an independent pure-Python BIP32 oracle and the extracted model.',
+   design_ref='DESIGN.md section 6 C03, section 9',
+   note='The executable secp256k1 instance is NOT proved to satisfy the group laws and primality of n is not proved (no EC/primality library installed): the '
+        'commutation theorems carry group_laws as a premise. Hash transcriptions are validated against hashlib, not proved. Closed under the global context. '
+        'Seven defects repaired by fix: commits.',
+   technique='Coq proof (abstract group algebra + concrete model equalities) + extracted-model differential correspondence'),
+ 'C17': dict(
+   text='PrimFloat model, operation by operation, of Value(str), value_sat, value_to_satoshi, from_satoshi, str/str_unit, Output value handling, with the '
+        'decimal<->binary64 conversions as exact integer algorithms proved correct with Flocq. Theorems: btc_string_exact and btc_amount_exact for EVERY n in '
+        '[0, 21e14] and every network, sat_string_exact, format_parse_roundtrip (default denominator), py_float_correctly_rounded, py_round_exact, '
+        'outputs_are_integers; vm_compute refutation witnesses for each denominator that loses a unit. Constants are parsed from the regenerated tables. '
+        'Tie: bit-exact (float.hex) correspondence on ~270k amounts per run including rounding-boundary and top-of-range streams.',
+   design_ref='DESIGN.md section 6 C17, section 9',
+   note='Axioms (standard library only, listed in ALLOWED_AXIOMS and evidence): ClassicalDedekindReals.sig_forall_dec, sig_not_dec, '
+        'FunctionalExtensionality.functional_extensionality_dep, Classical_Prop.classic (through Reals/Flocq) and the FloatAxioms primitive-float '
+        'specification (Prim2SF_SF2Prim, Prim2SF_valid, SF2Prim_Prim2SF, mul_spec, div_spec). Extraction additionally uses ExtrOCamlFloats and '
+        'ExtrOCamlInt63. 17 known findings (binary-float amounts lose a unit for other denominators).',
+   technique='Coq proof with Flocq (error analysis of two roundings) over a PrimFloat model + bit-exact differential correspondence'),
+ 'C20': dict(
+   text='Gallina model of Service._provider_execute (provider ordering, skip/raise/empty handling, error limit) and the wrappers getbalance, getutxos, '
+        'gettransaction, getrawtransaction, estimatefee, isspent, blockcount with the cache as a map with explicit clock. Theorems for every provider list, '
+        'outcome assignment and setting: result_is_a_provider_answer, fails_only_when_nobody_answers (exact characterisation of Value/False/ServiceError), '
+        'skips_are_skipped, order_respects_priority, wrappers_do_not_fabricate (guarded) and unguarded *_origins theorems listing every source of a '
+        'returned value, cache_returns_what_was_stored. Tie: exhaustive outcome assignments for k<=3 fake providers x settings x priority orders against '
+        'the real Service with a sqlite cache; control-flow facts re-read from the source (GenService).',
+   design_ref='DESIGN.md section 6 C20, section 9',
+   note='Partial: clock, HTTP and sqlite are runtime (a timeout is a Raise). gettransactions/getblock/address index not modelled. Six known findings (False or '
+        'invented values at the error limit; pinned by an existing test so not repairable under the constraints). Closed under the global context.',
+   technique='Coq proof (induction over provider lists) + exhaustive small-configuration differential correspondence'),
 }
